@@ -780,6 +780,9 @@ func genC12Seq(mismatchOpen bool) func(t *rapid.T) C12Seq {
 }
 
 func genC12SeqOne(t *rapid.T, mismatchOpen bool) C12Seq {
+	if !mismatchOpen && rapid.IntRange(0, 39).Draw(t, "forced-regression") == 0 {
+		return genC12WitnessEvaluatorMismatch(t)
+	}
 	var s C12Seq
 	s.Mem = rapid.IntRange(0, 3).Draw(t, "mem") == 0
 	capF, in, out, hasN := genC12Cap(t)
@@ -1178,4 +1181,34 @@ func TestC12WitnessZDestroyDeadlock(t *testing.T) {
 		},
 		Run: runC12DestroyDL,
 	}, "cap-shift-autodestroy-vs-capmu-deadlock", "deadlock")
+}
+
+// --- witness: the PatchTreasures pre-count ignores records the read-path evaluator counts ------------
+
+func genC12WitnessEvaluatorMismatch(t *rapid.T) C12Seq {
+	var s C12Seq
+	s.Mem = rapid.Bool().Draw(t, "mem")
+	leg := Leg{Field: rapid.SampledFrom([]string{"owner", "status"}).Draw(t, "empty-field"), Op: "empty"}
+	s.Cap = Filt{Or: true, Legs: []Leg{{Field: "status", Op: "eq", S: "leased"}, leg}}
+	s.Max = int32(rapid.IntRange(1, 3).Draw(t, "max"))
+	for i := 0; i < int(s.Max); i++ { // the cap is used up by records whose value is not a msgpack map
+		s.Recs = append(s.Recs, C11Rec{Cre: -4200 - i, Alt: rapid.SampledFrom([]string{"int", "str", "raw"}).Draw(t, "alt")})
+	}
+	k := rapid.IntRange(1, 3).Draw(t, "ready")
+	b := C12Batch{Kind: "patch"}
+	for i := 0; i < k; i++ {
+		s.Recs = append(s.Recs, C11Rec{Cre: -5000 - i, B: Body{Status: "ready", Owner: "none", N: int64(i)}})
+		b.Patches = append(b.Patches, C12Patch{Key: int(s.Max) + i, Ops: []POp{{Kind: "set-status", S: "leased"}}})
+	}
+	s.Batches = []C12Batch{b}
+	return s
+}
+
+func TestC12WitnessEvaluatorMismatch(t *testing.T) {
+	pbt.Witness(t, pbt.Spec[C12Seq]{
+		ID: "C12", Facet: "witness-cap-precount-evaluator-mismatch",
+		Rule: "sequential: MaxMatching records whose value is an int64 / a string / bytes without the msgpack magic (they satisfy the IS_EMPTY leg of Cap.Filter for reads, Shift* and PatchExpired) " +
+			"+ 1–3 msgpack records with status \"ready\"; one PatchTreasures(Cap{status EQUAL \"leased\" OR <field> IS_EMPTY}) sets status=\"leased\" on the latter",
+		Quick: 12, Thorough: 100, Gen: genC12WitnessEvaluatorMismatch, Run: runC12Seq,
+	}, "cap-precount-evaluator-mismatch", "budget", "cap-exceeded")
 }
